@@ -968,7 +968,13 @@ func (c *compiler) evalCallExpression(node *ast.CallExpression) (interface{}, er
 			for k, v := range octx.data {
 				c.ctx.Set(k, v)
 			}
-			c.ctx.Set(node.Function.String(), res[0].Interface())
+			// the rest of the path refers to the call's result by the name the
+			// parser put at the root of its receiver chain
+			key := node.Function.String()
+			if root := calleeRoot(node.ChainCallee); root != nil {
+				key = root.Value
+			}
+			c.ctx.Set(key, res[0].Interface())
 			vvs, err := c.evalExpression(node.ChainCallee)
 			if err != nil {
 				return nil, err
